@@ -12,6 +12,8 @@ import (
 	"encoding/json"
 	"fmt"
 	"os"
+	"regexp"
+	"path/filepath"
 	"runtime"
 	"sort"
 	"strings"
@@ -25,6 +27,7 @@ import (
 	"github.com/alephium/wormhole-fork/node/verifh/ev"
 	"github.com/alephium/wormhole-fork/node/verifh/mc"
 	"github.com/alephium/wormhole-fork/node/verifh/quiesce"
+	"github.com/alephium/wormhole-fork/node/verifh/wiring"
 	"github.com/benbjohnson/clock"
 )
 
@@ -419,6 +422,7 @@ func main() {
 		postFull()
 		postFullAdmin()
 		volume()
+		productionWiring()
 		r.Fork(len(cfgs), nil, nil)
 		r.Set("rule", "state key = per (chain, tx) exact ages of last forward / drop / request (harness's own record), phase of the 7-minute purge ticker, queue fill levels; every transition is performed on the real dispatcher goroutine and judged after quiescence")
 		r.Assume("the dispatcher uses only Now and Ticker of the clock interface; ticks are delivered one boundary at a time with quiescence in between (as the mock clock does)")
@@ -585,6 +589,51 @@ func volume() {
 		}
 	}
 	r.Add("volume_requests", len(hist))
+}
+
+// productionWiring: the explorations above hand the dispatcher a queue map and watch the queues. In the node
+// that map is built in cmd/guardiand/node.go and every queue is handed to ONE watcher constructor; read from the
+// source at check time: the watcher constructed for chain X receives chainObsvReqC[X], no queue is handed to two
+// watchers, and every queue that is created is handed to a watcher (a queue nobody drains fills up and then
+// every request for that chain is dropped).
+func productionWiring() {
+	nodeGo := filepath.Join(r.Repo, "node/cmd/guardiand/node.go")
+	re := regexp.MustCompile(`^chainObsvReqC\[vaa\.(ChainID\w+)\]$`)
+	used := map[string]string{}
+	check := func(watcher, chain, arg string) {
+		m := re.FindStringSubmatch(arg)
+		if m == nil {
+			ev.Broken("node.go: %s receives %q as its re-observation queue: outside the recognised wiring", watcher, arg)
+		}
+		r.Add("wiring_facts", 1)
+		if m[1] != chain {
+			r.Violation("production wiring: a watcher is handed the re-observation queue of another chain", fmt.Sprintf("%s (chain %s) receives chainObsvReqC[vaa.%s]", watcher, chain, m[1]), map[string]string{"watcher": watcher, "chain": chain, "queue": m[1]})
+		}
+		if prev, dup := used[m[1]]; dup {
+			r.Violation("production wiring: two watchers drain the same re-observation queue", fmt.Sprintf("%s and %s both receive chainObsvReqC[vaa.%s]", prev, watcher, m[1]), map[string]string{"a": prev, "b": watcher, "queue": m[1]})
+		}
+		used[m[1]] = watcher
+	}
+	qs, err := wiring.ArgFor(nodeGo, "ethereum.NewEthWatcher", filepath.Join(r.Repo, "node/pkg/ethereum/watcher.go"), "NewEthWatcher", "obsvReqC")
+	cs, err2 := wiring.ArgFor(nodeGo, "ethereum.NewEthWatcher", filepath.Join(r.Repo, "node/pkg/ethereum/watcher.go"), "NewEthWatcher", "chainID")
+	if err != nil || err2 != nil {
+		ev.Broken("node.go wiring of the EVM watchers: %v %v", err, err2)
+	}
+	for i := range qs {
+		check(fmt.Sprintf("EVM watcher #%d", i+1), strings.TrimPrefix(cs[i], "vaa."), qs[i])
+	}
+	aq, err := wiring.ArgFor(nodeGo, "alephium.NewAlephiumWatcher", filepath.Join(r.Repo, "node/pkg/alephium/watcher.go"), "NewAlephiumWatcher", "obsvReqC")
+	if err != nil || len(aq) != 1 {
+		ev.Broken("node.go wiring of the Alephium watcher: %v", err)
+	}
+	check("Alephium watcher", "ChainIDAlephium", aq[0])
+	src, _ := os.ReadFile(nodeGo)
+	for _, m := range regexp.MustCompile(`(?m)^\s*chainObsvReqC\[vaa\.(ChainID\w+)\] = make\(`).FindAllStringSubmatch(string(src), -1) {
+		r.Add("wiring_facts", 1)
+		if used[m[1]] == "" {
+			r.Violation("production wiring: a re-observation queue is created but handed to no watcher", "chainObsvReqC[vaa."+m[1]+"]", m[1])
+		}
+	}
 }
 
 func replay(path string) {
